@@ -220,10 +220,14 @@ pub fn sc_fail_retry_ledger(idx: u64, seed: u64, _t: bool) -> RunOut {
 
 /// C07: per-call RNG and comparison with the control run (failed calls removed)
 pub fn sc_fail_retry_control(idx: u64, seed: u64, _t: bool) -> RunOut {
+    let mut profile = fail_retry_profile();
+    profile.tr_rekey_sync = 40;
+    profile.tr_rekey = 30;
+    profile.tr_setrecv = 30;
     let plan = Plan {
         scenario: "fail-retry-control",
         opts: CfgOpts { rng_mode: RngMode::PerCall, late_psk: 300, sessions: 2, surplus_rs: 150, evil_pub: 60, ..CfgOpts::default() },
-        profile: fail_retry_profile(),
+        profile,
         mode: "control",
         warm_parallel: true,
     };
@@ -318,6 +322,12 @@ pub fn apply_mismatch(cfg: &mut RunCfg, rng: &mut Rng) {
         choices.push("psk-long-via-set_psk");
     }
     choices.push("big-prologue-tail");
+    if proto.psk_mods.len() == 1 {
+        choices.push("psk-index");
+    }
+    if !proto.needs_remote_static(true) && !proto.needs_remote_static(false) {
+        choices.push("dh");
+    }
     if proto.needs_remote_static(true) {
         choices.push("rs-initiator");
         choices.push("rs-initiator-bit255");
@@ -358,6 +368,38 @@ pub fn apply_mismatch(cfg: &mut RunCfg, rng: &mut Rng) {
                 let tail = rng.bytes(extra);
                 cfg.nodes[side].psks[k].key.extend_from_slice(&tail);
                 cfg.nodes[side].psks[k].at_boot = false;
+            },
+            "psk-index" => {
+                // same PSK value, another (valid) position
+                let proto = Proto::parse(&cfg.nodes[side].name).unwrap();
+                if proto.psk_mods.len() == 1 {
+                    let old = proto.psk_mods[0];
+                    let cands: Vec<u8> = (0..=proto.n_messages() as u8).filter(|m| *m != old).collect();
+                    if !cands.is_empty() {
+                        let newi = cands[rng.usize_below(cands.len())];
+                        let parts: Vec<String> = cfg.nodes[side].name.split('_').map(|s| s.to_string()).collect();
+                        let newname = format!("Noise_{}psk{}_{}_{}_{}", proto.base, newi, parts[2], parts[3], parts[4]);
+                        if Proto::parse(&newname).is_ok() {
+                            cfg.nodes[side].name = newname;
+                            for p in cfg.nodes[side].psks.iter_mut() {
+                                p.idx = newi;
+                            }
+                        }
+                    }
+                }
+            },
+            "dh" => {
+                // the other DH function; this side gets fresh keys of the right kind (no static key
+                // is pre-shared in this pattern)
+                let parts: Vec<String> = cfg.nodes[side].name.split('_').map(|s| s.to_string()).collect();
+                let newdh = if parts[2] == "25519" { "P256" } else { "25519" };
+                let newname = format!("{}_{}_{}_{}_{}", parts[0], parts[1], newdh, parts[3], parts[4]);
+                if let Ok(np) = Proto::parse(&newname) {
+                    cfg.nodes[side].name = newname;
+                    if cfg.nodes[side].s_priv.is_some() {
+                        cfg.nodes[side].s_priv = Some(gen_static(rng, np.dh).0);
+                    }
+                }
             },
             "big-prologue-tail" => {
                 // a shared prologue longer than 65535 bytes; the peers differ only near its end
@@ -744,8 +786,13 @@ pub fn sc_backends_twin(idx: u64, seed: u64, _t: bool) -> RunOut {
             tr_rekey_sync: 80,
             tr_nonce_explicit: 80,
             tr_shortout: 40,
+            tr_setsend: 40,
+            tr_shortbuf: 40,
+            tr_oversize: 20,
             stateless: 400,
             big_payloads: 20,
+            wild_buffers: true,
+            epilogue: true,
             ..Profile::default()
         },
         mode: "twin",
@@ -1049,7 +1096,7 @@ pub fn check_table() -> Vec<Check> {
         Check { id: "C03", level: "exploration", rule: RULE, enumerations: vec![], scens: vec![scen!("tamper-hs", sc_tamper_hs, 30_000, 800_000, 0x301), scen!("chaos", sc_chaos, 4_000, 100_000, 0x302)] },
         Check { id: "C04", level: "exploration", rule: RULE, enumerations: vec![], scens: vec![scen!("transport-auth", sc_transport_auth, 20_000, 500_000, 0x401), scen!("stateless", sc_stateless, 6_000, 100_000, 0x402), scen!("framing-boundary", sc_framing_boundary, 3_040, 10_640, 0x403)] },
         Check { id: "C05", level: "exploration", rule: RULE, enumerations: vec![], scens: vec![scen!("transport-sched", sc_transport_sched, 24_000, 600_000, 0x501), scen!("nonce", sc_nonce, 4_000, 100_000, 0x502), scen!("sched-enum", sc_sched_enum, 7_500, 7_500, 0x503)] },
-        Check { id: "C06", level: "exploration", rule: RULE, enumerations: vec![], scens: vec![scen!("fail-retry-ledger", sc_fail_retry_ledger, 24_000, 600_000, 0x601), scen!("chaos", sc_chaos, 6_000, 100_000, 0x602), scen!("nonce", sc_nonce, 6_000, 100_000, 0x603)] },
+        Check { id: "C06", level: "exploration", rule: RULE, enumerations: vec!["real-rng"], scens: vec![scen!("fail-retry-ledger", sc_fail_retry_ledger, 24_000, 600_000, 0x601), scen!("chaos", sc_chaos, 6_000, 100_000, 0x602), scen!("nonce", sc_nonce, 6_000, 100_000, 0x603)] },
         Check { id: "C07", level: "exploration", rule: RULE, enumerations: vec![], scens: vec![scen!("fail-retry-control", sc_fail_retry_control, 20_000, 500_000, 0x701), scen!("transport-sched", sc_transport_sched, 4_000, 100_000, 0x702)] },
         Check { id: "C08", level: "exploration", rule: RULE, enumerations: vec![], scens: vec![scen!("mismatch", sc_mismatch, 24_000, 600_000, 0x801), scen!("mismatch-cross", sc_mismatch_cross, 8_000, 200_000, 0x802)] },
         Check { id: "C09", level: "exploration", rule: RULE, enumerations: vec![], scens: vec![scen!("nonce", sc_nonce, 24_000, 600_000, 0x901), scen!("stateless", sc_stateless, 4_000, 100_000, 0x902)] },
